@@ -254,6 +254,14 @@ class InterfaceLDM4:
         subscription_id = self.store_subscription_info(
             subscribe_data_consumer, callback
         )
+        if subscription_id is None:
+            # The consumer deregistered while the request was being validated
+            return SubscribeDataObjectsResp(
+                subscribe_data_consumer.application_id,
+                0,
+                SubscribeDataobjectsResult.INVALID_ITSA_ID,
+                "Invalid ITS-AID",
+            )
 
         return SubscribeDataObjectsResp(
             subscribe_data_consumer.application_id,
@@ -475,6 +483,7 @@ class InterfaceLDM4:
         return self.ldm_service.store_new_subscription_petition(
             subscription_request=subscribe_data_consumer,
             callback=callback,
+            registered_only=True,
         )
 
     def unsubscribe_data_consumer(
